@@ -269,7 +269,7 @@ func init() {
 	})
 	addProp(&PropSpec{
 		ID:          "C07",
-		Rules:       []string{"R-MODEGUARD", "R-MODEPRED", "R-ONELEVEL", "R-STATE", "R-PAIR-C", "R-FAILSTOP", "R-TRUNC", "R-LAST", "R-COLLMONO", "R-SUBBOUNDS"},
+		Rules:       []string{"R-MODEGUARD", "R-MODEPRED", "R-ONELEVEL", "R-STATE", "R-PAIR-C", "R-FAILSTOP", "R-TRUNC", "R-LAST", "R-COLLMONO", "R-SUBBOUNDS", "R-TRAVERSAL"},
 		Explanation: "Lax absorbs / strict reports as control dependence: every structural error an accessor step raises is on a branch where strictness is established, the mode predicates depend on the path's flag only, the temporary override below .** is restored on every exit, and a failed (status, error) pair is returned from whatever position of a subscript list or array it arises at.",
 		Decided: []string{"R-FAILSTOP: a failed status, with or without an error value, is returned from whatever position of a list, array or recursive descent it arises at", "R-MODEGUARD: structural errors of accessor steps are guarded by strictness (tabled exceptions: subscript value conversion)",
 			"R-MODEPRED: autoWrap/autoUnwrap/strict predicates and the initial flag are functions of IsLax only",
